@@ -72,7 +72,7 @@ def one_case(args):
 def run(res):
     exe = build.fastpasta("rel")
     wd = scratch("c01")
-    n = 160 if res.tier == "quick" else 4000
+    n = 160 if res.tier == "quick" else 12000
     feats = set()
     for o in pmap(one_case, [(exe, wd, res.seed, c, res.tier) for c in range(n)]):
         res.evaluations += o["runs"]
